@@ -1,4 +1,5 @@
 import json
+import gfapy
 from copy import deepcopy
 
 class Cloning:
@@ -11,7 +12,8 @@ class Cloning:
     To achieve this, all reference fields are copied in their string
     representation.
     All other fields are copied as they are, and a deep copy is done for
-    arrays, strings and JSON fields.
+    arrays, strings, JSON fields, positions, oriented identifiers and
+    multiple-value header tags.
 
     Returns
     -------
@@ -21,10 +23,16 @@ class Cloning:
     for k,v in self._data.items():
       if k in self.__class__.REFERENCE_FIELDS:
         data_cpy[k] = self.field_to_s(k)
+      elif isinstance(v, gfapy.FieldArray):
+        data_cpy[k] = gfapy.FieldArray(v.datatype, deepcopy(v._data))
       elif self._field_datatype(k) == "J":
         data_cpy[k] = json.loads(json.dumps(v))
       elif isinstance(v, list) or isinstance(v, str):
         data_cpy[k] = deepcopy(v)
+      elif isinstance(v, gfapy.LastPos):
+        data_cpy[k] = gfapy.LastPos(v.value, valid = True)
+      elif isinstance(v, gfapy.OrientedLine):
+        data_cpy[k] = gfapy.OrientedLine(v.name, v.orient)
       else:
         data_cpy[k] = v
     cpy = self.__class__(data_cpy, vlevel = self.vlevel,
